@@ -1058,13 +1058,13 @@ struct CtlEngine : Engine
     }
     std::string rule(std::string const &prop) const override
     {
-        if (prop == "C12") return "items are seeded closed-loop histories (plain / fuzzy / neuron controller; exact dyadic or general floating regime; 3 plant stubs) with sensor faults, set-point jumps, retuning, mode switches and zero at arbitrary samples; every sample checks limits, finiteness, the integrator clamp clause, the documented difference equation (bit-exact in the dyadic regime; for the single-neuron controller the remembered differences, the Hebbian weight update and the normalised output, accepting both the header's and the code's reading of the formula), the empty history after zeroing, the fuzzy gain schedule against an independent evaluation (all 13 membership families, 7 operators, present or absent rule bases), restart replicas, a replica driven through the C++ member wrappers, and the positional/incremental pair; evaluations = histories; distinct_nontrivial = HyperLogLog estimate of distinct (mode, saturation flags, sign(sum), sign(err), clamp flags, controller type, active sensor fault, floor(output)) states";
+        if (prop == "C12") return "items are seeded closed-loop histories (plain / fuzzy / neuron controller; exact dyadic, general floating or - one history in twelve - extreme-magnitude regime in which intermediates overflow and only the output limits are asserted; 3 plant stubs) with sensor faults, set-point jumps, retuning, mode switches and zero at arbitrary samples; every sample checks limits, finiteness, the integrator clamp clause, the documented difference equation (bit-exact in the dyadic regime; for the single-neuron controller the remembered differences, the Hebbian weight update and the normalised output, accepting both the header's and the code's reading of the formula), the empty history after zeroing, the fuzzy gain schedule against an independent evaluation (all 13 membership families, 7 operators, present or absent rule bases), restart replicas, a replica driven through the C++ member wrappers, and the positional/incremental pair; evaluations = histories; distinct_nontrivial = HyperLogLog estimate of distinct (mode, saturation flags, sign(sum), sign(err), clamp flags, controller type, active sensor fault, floor(output)) states";
         return "items are seeded input histories through the real transfer function (orders 0..8, integer coefficients, four lock-step replicas: main, second input, linear combination, delayed input) or through the RC filters (dyadic or general alpha), with zero at arbitrary samples, numerator/denominator re-pointed in a running filter, a replica driven through the C++ members and initialiser macros, quiet phases with a settling bound, and coefficient generation over 24 decades (every third call over the whole positive double range); distinct_nontrivial = HyperLogLog estimate of distinct (numerator order, denominator order, binary exponent and sign of the output, exactness flag, samples since reset) states for the transfer function and (alpha in sixteenths, exponents and signs of both outputs, samples since reset) states for the RC filters";
     }
     std::vector<std::string> assumptions(std::string const &prop) const override
     {
         std::vector<std::string> v = {"sampling, not proof: a clean batch is evidence proportional to the reach numbers in this file", "time is the sample index; no wall clock is involved"};
-        if (prop == "C12") { v.push_back("ki >= 0, summin <= 0 <= summax, outmin <= outmax, magnitudes bounded (|values| <= 64 in the dyadic regime, <= ~1e9 in the general regime) so that no intermediate overflows"); v.push_back("fuzzy scratch buffer sized for the number of simultaneously active sets (order, or 2 for Ruspini partitions)"); v.push_back("neuron weights are configuration, not state: zero/init does not reset them, replicas copy them"); }
+        if (prop == "C12") { v.push_back("ki >= 0, summin <= 0 <= summax, outmin <= outmax, magnitudes bounded (|values| <= 64 in the dyadic regime, <= ~1e9 in the general regime) so that no intermediate overflows - the equations, finiteness of the inner state and restart equivalence are claimed under that bound; beyond it (extreme regime, values up to 2^1020) only output-within-limits is checked, because the unchanged code lets the integrator overflow there"); v.push_back("fuzzy scratch buffer sized for the number of simultaneously active sets (order, or 2 for Ruspini partitions)"); v.push_back("neuron weights are configuration, not state: zero/init does not reset them, replicas copy them"); }
         else v.push_back("transfer-function coefficients and inputs are small integers so that the direct-form reference is exact below 2^50; beyond that a relative tolerance 2^-40 applies");
         return v;
     }
